@@ -66,6 +66,9 @@ def main(argv):
             prop = meta["property"]
             if ids and prop not in ids:
                 continue
+            match = os.environ.get("VERIF_SELFTEST_MATCH")   # regex on the seed directory name, e.g. 'C..-[67]$'
+            if match and not re.search(match, os.path.basename(os.path.dirname(patch))):
+                continue
             todo.append((patch, prop, tuple(meta.get("also_check", []))))
 
         def sjob(a):
@@ -97,8 +100,10 @@ def main(argv):
         dest = os.path.join(HERE, "mutants", "RESULTS.json")
     dest = os.environ.get("VERIF_SELFTEST_DEST", dest)
     old = []
-    if os.path.exists(dest) and ids:
-        old = [r for r in json.load(open(dest)) if r.get("property") not in ids]
+    if os.path.exists(dest) and (ids or os.environ.get("VERIF_SELFTEST_MATCH")):
+        redone = {r.get("seed") or r.get("patch") for r in results}
+        old = [r for r in json.load(open(dest)) if (r.get("seed") or r.get("patch")) not in redone
+               and (seeded or r.get("property") not in ids)]
     with open(dest, "w") as f:
         json.dump(old + results, f, indent=1)
     missed = [r for r in results if r.get("status") not in ("caught", "caught-by-other")]
